@@ -3,6 +3,7 @@ package props
 import (
 	"fmt"
 	"strings"
+	"unicode/utf8"
 
 	"verif/internal/core"
 	"verif/internal/strict"
@@ -189,6 +190,58 @@ func runC15(r *core.Run) {
 					return core.Hash([]byte(strings.Join(ids, ",")))
 				}
 			})
+	}
+	// long headings: every slug length up to a bound (limits, truncation, buffers), with a repeat and a near-repeat
+	{
+		maxL := core.Pick(r, 400, 1500)
+		units := []string{"ab ", "a", "- ", "Ab-1 ", "あ "}
+		for _, cn := range []string{"core+autoid", "all+autoid+xhtml"} {
+			cfg := core.MustCfg(cn)
+			s := r.Sub("long-headings/"+cn, fmt.Sprintf("for each unit in %q and EVERY length L = 1..%d: the document '# T', '# T', '## T minus its last byte', 'T' + Setext underline, where T is the first L bytes of the repeated unit: ids non-empty, pairwise distinct and equal to the reference model's, under %s", units, maxL, cn))
+			core.ForEachIndex(len(units), core.Workers(), func(w int) func(int) {
+				cv := core.NewConv(cfg)
+				return func(ui int) {
+					rep := strings.Repeat(units[ui], maxL/len(units[ui])+2)
+					for l := 1; l <= maxL; l++ {
+						t := strings.TrimSpace(rep[:l])
+						for !utf8.ValidString(t) && len(t) > 0 {
+							t = t[:len(t)-1]
+						}
+						if t == "" || strings.Trim(t, "-= ") == "" && false {
+							continue
+						}
+						t2 := strings.TrimSpace(t[:len(t)-1])
+						for !utf8.ValidString(t2) && len(t2) > 0 {
+							t2 = t2[:len(t2)-1]
+						}
+						texts := []string{t, t, t2}
+						doc := "# " + t + "\n\n# " + t + "\n\n## " + t2 + "\n"
+						out, ok := mustConvert(s, cv, []byte(doc))
+						s.Evals.Add(1)
+						if !ok {
+							continue
+						}
+						ids, probs, lerr := headingIDs(out)
+						if lerr != nil {
+							s.Violate("lex:"+lerr.Code, cfg.String(), []byte(doc), nil, lerr.Error(), "", core.Clip(string(out), 400))
+							continue
+						}
+						for _, p := range probs {
+							s.Violate(p+":long-heading", cfg.String(), []byte(doc), nil, fmt.Sprintf("L=%d heading ids %q", l, ids), "every heading has a distinct non-empty id", "")
+						}
+						if want := idsModel(texts); len(ids) == 3 && strings.Join(ids, "\x00") != strings.Join(want, "\x00") && strings.Trim(t, "- ") != "" && strings.Trim(t2, "- ") != "" {
+							s.Violate("ids-differ-from-model:long-heading", cfg.String(), []byte(doc), nil, fmt.Sprintf("L=%d ids %q, reference model %q", l, ids, want), strings.Join(want, " "), strings.Join(ids, " "))
+						}
+					}
+					s.Distinct(core.Hash([]byte(units[ui])))
+					s.AddSample(fmt.Sprintf("unit %q, L=1..%d", units[ui], maxL))
+				}
+			}, r.Expired)
+			s.States.Store(s.Evals.Load())
+			s.Transitions.Store(s.Evals.Load())
+			s.Bound = fmt.Sprintf("%d units × L=1..%d", len(units), maxL)
+			s.Done()
+		}
 	}
 	// unstructured: any document over block tokens
 	alpha := core.Union(core.ABlock, []string{"A", "\t", "_", "[", "]"})
